@@ -24,7 +24,7 @@ _state = {'libs': None, 'base': None, 'sim': False}
 FUNCS = {
     'distances_opt': 'exact', 'distances_np': 'exact', 'distances_pbc': 'exact', 'displacements': 'exact',
     'angles': 'exact', 'dihedrals': 'exact', 'phi': 'exact', 'psi': 'exact', 'chi1': 'exact',
-    'rmsd_par': 'exact', 'rmsd_ser': 'exact', 'rmsd_pre': 'exact', 'rmsd_ai': 'exact', 'lprmsd': 'exact', 'center': 'exact', 'superpose': 'exact',
+    'rmsd_par': 'exact', 'rmsd_ser': 'exact', 'rmsd_pre': 'exact', 'rmsd_ai': 'exact', 'rmsd_pre_view': 'exact', 'lprmsd': 'exact', 'center': 'exact', 'superpose': 'exact',
     'sasa_atom': 'exact', 'sasa_residue': 'exact', 'dssp': 'exact', 'dssp_full': 'exact', 'kabsch_sander': 'exact', 'wernet_nilsson': 'exact',
     'neighbors': 'exact', 'neighborlist': 'exact', 'contacts_ca': 'exact', 'contacts_closest': 'exact', 'drid': 'exact',
     'rg': 'tol', 'com': 'tol', 'gyration': 'tol', 'inertia': 'tol', 'principal_moments': 'tol',
@@ -98,6 +98,7 @@ def generate(check, rng, tier, run_index):
         for c in contexts:
             ops.append({'op': 'context', 'f': f, 'ctx': c, 'seed': rng.below(1 << 30), 'team': rng.choice([1, 1, 2, 3, 5]),
                         'prob': rng.choice(SWITCH), 'sseed': rng.below(1 << 40) + 1})
+    rng.shuffle(ops)       # evaluations of different functions interleave (state kept between calls of a kernel shows up inside a run)
     case = {'check': check, 'n_frames': n_frames, 'res_lo': res_lo, 'n_res': n_res, 'seed': rng.below(1 << 30),
             'cell': rng.chance(0.4), 'noise': rng.choice([0.0, 0.01, 0.05]), 'scheds': scheds, 'ops': ops}
     if rng.chance(0.3):
@@ -191,6 +192,14 @@ def evaluate(md, name, w, idx, fseed):
         t.center_coordinates()
         ref.center_coordinates()
         out = md.rmsd(t, ref, 0, parallel=True, precentered=True)
+    elif name == 'rmsd_pre_view':
+        # the frames are taken out of the centred full trajectory as a slice(copy=False) view; the precentered shortcut on the
+        # view must give each frame the value it has alone
+        full = fresh(md, w, None)
+        full.center_coordinates()
+        ref.center_coordinates()
+        view = full.slice(np.asarray(idx, dtype=int), copy=False)
+        out = md.rmsd(view, ref, 0, parallel=True, precentered=True)
     elif name == 'rmsd_ai':
         out = md.rmsd(t, ref, 0, atom_indices=np.arange(0, n, 2), parallel=True)
     elif name == 'lprmsd':
